@@ -39,12 +39,16 @@ class FrameExec(Exec):
         self.spec = spec                       # frame spec of the function (dict)
         self.findings = []                     # (kind, line, text, conds)
         self.unordered_consts = set()
+        self.set_consts = set()                # constants standing for sets built in loops
+        self.order_source = {}                 # tainted constant -> s-expression of the sequence whose iteration produced it
         self.order_free = set(spec.get("order_free", []))
 
     def sub_exec(self, side):
         ex = FrameExec(self.ctx, self.fname, self.spec)
         ex.leaf = self.leaf
         ex.unordered_consts = self.unordered_consts
+        ex.order_source = self.order_source
+        ex.set_consts = self.set_consts
         ex.findings = []               # findings of dry runs are discarded
         return ex
 
@@ -141,26 +145,46 @@ class FrameExec(Exec):
         return self.nonlocal_regions(v)
 
     # ---------------------------------------------------------------------------------------------- order taint
-    def unordered(self, v, depth=0):
-        """does the ORDER of this sequence value come from iterating a set?"""
+    def okind(self, v, depth=0):
+        """'set'  : iterating this collection yields an arbitrary order (a set: free_symbols, mode / parameter sets, set algebra)
+           'seq'  : an ORDERED value (list, tuple, string, dict) whose order was obtained by iterating a set
+           None   : neither"""
         if isinstance(v, Tup) or not z3.is_expr(v) or z3.is_bool(v) or depth > 12:
-            return False
+            return None
         if z3.is_const(v):
-            return v.decl().name() in self.unordered_consts
+            nm = v.decl().name()
+            return "seq" if nm in self.unordered_consts else ("set" if nm in self.set_consts or nm == "nil_set" else None)
         n = v.decl().name()
-        if n in ORDER_SAFE:
-            return False
         if n in SET_SOURCES:
-            return True
-        if n in ("list_of", "tuple_of", "py_enumerate", "list_app", "list_cat", "py_slice", "dict_items", "dict_keys", "dict_values") or n.startswith("py_zip"):
-            return any(self.unordered(a, depth + 1) for a in v.children())
-        return False
+            return "set"
+        if n in ("py_sub", "py_or", "py_and") and any(self.okind(a, depth + 1) == "set" for a in v.children()):
+            return "set"
+        if n in ("py_len",) or n.startswith("py_sorted"):
+            return None
+        if n in ("list_of", "tuple_of", "py_enumerate", "list_app", "list_cat", "py_slice", "dict_items", "dict_keys", "dict_values", "dict_of",
+                 "py_map", "py_filter", "py_reversed") or n.startswith("py_zip"):
+            return "seq" if any(self.okind(a, depth + 1) for a in v.children()) else None
+        return None
 
-    def order_sink(self, v, what, node, p):
-        if self.unordered(v):
+    def unordered(self, v, depth=0):
+        return self.okind(v) is not None
+
+    def order_sink(self, v, what, node, p, kinds=("seq",)):
+        if self.okind(v) in kinds:
             name = getattr(node, "lineno", None)
             self.findings.append(("order", name, "%s consumes a sequence whose order comes from iterating a set: %s" % (what, str(v)[:160].replace("\n", " ")),
                                   list(p.conds)))
+
+    def compare(self, e, p):
+        if len(e.ops) == 1 and isinstance(e.ops[0], (ast.Eq, ast.NotEq, ast.Lt, ast.Gt, ast.LtE, ast.GtE)):
+            try:
+                for (l, r), p2 in self.evlist([e.left, e.comparators[0]], p):
+                    for side in (l, r):
+                        if z3.is_expr(side) and not z3.is_bool(side):
+                            self.order_sink(side, "a comparison", e, p2)
+            except Unsupported:
+                pass
+        return super().compare(e, p)
 
     # ---------------------------------------------------------------------------------------------- intercepted writes
     def assign(self, tgt, v, p):
@@ -183,7 +207,7 @@ class FrameExec(Exec):
                     if not self.allowed(rr):
                         self.findings.append(("frame", tgt.lineno, "attribute assignment writes %s" % rr, list(p.conds)))
                 self.record_store(app("attr_" + field, asV(o)), v, p, "attribute assignment", tgt)
-                if self.unordered(v if z3.is_expr(v) else NONE) and tgt.attr not in self.order_free:
+                if z3.is_expr(v) and not z3.is_bool(v) and tgt.attr not in self.order_free:
                     self.order_sink(v, "stored field ." + tgt.attr, tgt, p)
         return super().assign(tgt, v, p)
 
@@ -229,8 +253,17 @@ class FrameExec(Exec):
             except KeyError:
                 v = None
             provs[k] = self.prov(v) if v is not None else set()
-            taints[k] = bool(v is not None and z3.is_expr(v) and self.unordered(v))
+            taints[k] = bool(v is not None and z3.is_expr(v) and not z3.is_bool(v) and self.okind(v) == "seq")
         loop_unordered = self.unordered(xs)
+        srcs = {}
+        setlike = set()
+        for k in written:
+            try:
+                v0 = self.loc_by_key(k).get(p)
+            except KeyError:
+                v0 = None
+            if v0 is not None and z3.is_expr(v0) and not z3.is_bool(v0) and self.okind(v0) == "set":
+                setlike.add(k)
         for rnd in range(4):
             q = p.copy()
             consts = self.havoc(q, written, "fcin")
@@ -238,6 +271,8 @@ class FrameExec(Exec):
                 self.leaf[c.decl().name()] = provs[k] or {"immutable"}
                 if taints[k]:
                     self.unordered_consts.add(c.decl().name())
+                if k in setlike:
+                    self.set_consts.add(c.decl().name())
             elem = fresh("felem")
             self.leaf[elem.decl().name()] = {(r + "[]") if r not in ("fresh", "immutable") else r for r in self.prov(xs)}
             n_find = len(self.findings)
@@ -256,8 +291,9 @@ class FrameExec(Exec):
                     new_p[k] = new_p[k] | self.prov(v)
                     if z3.is_expr(v) and not z3.is_bool(v):
                         # order taint: a fold over a set-ordered sequence that rebinds a carried list / string from its previous value
-                        if self.unordered(v) or (loop_unordered and self.order_sensitive_update(v, consts.get(k))):
+                        if self.okind(v) == "seq" or (loop_unordered and self.order_sensitive_update(v, consts.get(k))):
                             new_t[k] = True
+                            srcs.setdefault(k, xs.sexpr())
             if new_p == provs and new_t == taints:
                 break
             provs, taints = new_p, new_t
@@ -266,8 +302,14 @@ class FrameExec(Exec):
         consts = self.havoc(q, written, "fcout")
         for k, c in consts.items():
             self.leaf[c.decl().name()] = provs[k] or {"immutable"}
+            if k in setlike:
+                self.set_consts.add(c.decl().name())
             if taints[k]:
                 self.unordered_consts.add(c.decl().name())
+                self.order_source[c.decl().name()] = srcs.get(k, "")
+                if not k.startswith("local:"):
+                    # program / table state whose content order comes from iterating a set
+                    self.findings.append(("order", s.lineno, "state %s is built in the iteration order of a set" % k.split(":", 1)[1][-60:], list(p.conds)))
         for o in body:
             if o.kind == "ret":
                 self.ret_sink.append(Outcome("ret", q, value=o.value))
@@ -279,7 +321,7 @@ class FrameExec(Exec):
         if cin is None or not z3.is_expr(v):
             return False
         n = v.decl().name() if v.num_args() else ""
-        if n in ("list_app", "list_cat", "list_insert", "py_replace", "py_add", "re_sub") or n.startswith("py_format"):
+        if n in ("list_app", "list_cat", "list_insert", "py_replace", "py_add", "re_sub", "dict_set") or n.startswith("py_format"):
             return any(self.mentions(a, cin) for a in v.children())
         return False
 
@@ -301,16 +343,27 @@ def tolerant_call(ctx_call):
                 for (args, kwargs, starkw), p2 in ex.ctx.evargs(ex, e, p):
                     srcs = [asV(a).sexpr() for a in args if ex.unordered(asV(a))]
                     if srcs and not (len(srcs) == len(args) and len(set(srcs)) == 1):
-                        ex.order_sink(asV([a for a in args if ex.unordered(asV(a))][0]), "zip()", e, p2)
+                        ex.order_sink(asV([a for a in args if ex.unordered(asV(a))][0]), "zip()", e, p2, kinds=("seq", "set"))
             if isinstance(f, ast.Attribute) and f.attr == "join":
                 for (args, kwargs, starkw), p2 in ex.ctx.evargs(ex, e, p):
                     if args:
-                        ex.order_sink(asV(args[0]), "str.join()", e, p2)
+                        ex.order_sink(asV(args[0]), "str.join()", e, p2, kinds=("seq", "set"))
             if any(isinstance(a, ast.Starred) for a in e.args):
+                callee = None
+                if isinstance(f, ast.Name):
+                    try:
+                        callee = asV(ex.ev(f, p)[0][0])
+                    except (Unsupported, TypeError, IndexError):
+                        callee = None
                 for a in e.args:
                     if isinstance(a, ast.Starred):
                         for v, p2 in ex.ev(a.value, p):
-                            ex.order_sink(asV(v), "positional unpacking *args", e, p2)
+                            vv = asV(v)
+                            # documented pairing: f = lambdify(L, e) called with values enumerated from the same L
+                            if callee is not None and z3.is_app(callee) and callee.decl().name() == "LAMBDIFY" and z3.is_const(vv) and \
+                               ex.order_source.get(vv.decl().name()) == callee.arg(0).sexpr():
+                                continue
+                            ex.order_sink(vv, "positional unpacking *args", e, p2, kinds=("seq", "set"))
         except Unsupported:
             pass
         # writes through mutating methods
